@@ -234,7 +234,7 @@ class FullCheck(BaseCheck):
     t_start = env.now
     if boundary:
       classes.add('boundary')
-    methods = ['echo', 'echo', 'echo', 'fail', 'fail', 'swap', 'extra', 'lock', 'tail']
+    methods = ['echo', 'echo', 'echo', 'fail', 'fail', 'swap', 'extra', 'lock', 'tail', 'concat']
     for when, what in events:
       target = t_start + when
       if boundary:
@@ -245,6 +245,9 @@ class FullCheck(BaseCheck):
         m = rng.choice(methods)
         cid = len(w.calls)
         tagstr = 'c%d-%d' % (cid, rng.getrandbits(20))
+        if m in ('fail', 'echo') and rng.random() < 0.15:
+          tagstr += rng.choice([' 100% full', ' bad key %s', ' {0} {x}', ' %(name)s'])    # formatter metacharacters in values and errors
+          classes.add('text-with-format-characters')
         if m == 'fail' and rng.random() < 0.4:
           tagstr += ':FINE'         # this call returns a value; 'fail' otherwise raises its declared exception
         args = (ttypes.Pair(name=tagstr, n=cid, nums=[1, 2], kv={}),) if m == 'swap' else (tagstr,)
@@ -255,6 +258,13 @@ class FullCheck(BaseCheck):
           args = (tagstr,)
           if tagstr.endswith(':'):
             classes.add('reply:falsy-value')
+        if m == 'concat':
+          # a method whose IDL numbers its parameters out of order (2: first, 1: second)
+          classes.add('parameters-with-descending-ids')
+          if rng.random() < 0.5:
+            args = (tagstr, 'second-%d' % cid)
+          else:
+            kw = {'second': 'second-%d' % cid}
         if m == 'lock':
           # a service method one of whose parameters is called 'timeout', passed by position or by keyword
           if rng.random() < 0.6:
